@@ -110,6 +110,9 @@ class Engine(Interp):
                 if hi < tlo or lo > thi:
                     val = Struct("tuple", [Int.top(bits, signed), Int.const(1, 1, False)])
                     return [(st, val, None, None, None, ())]
+                if lin is not None and st.entails_le(lin - thi) and st.entails_le(LinForm.constant(tlo) - lin):
+                    val = Struct("tuple", [self.mk_int(max(lo, tlo), min(hi, thi), bits, signed, tz), Int.const(0, 1, False)])
+                    return [(st, val, None, None, None, (((0,), lin),))]
                 out = []
                 # no-overflow state
                 s1 = st.copy()
@@ -122,8 +125,16 @@ class Engine(Interp):
                 except Infeasible:
                     pass
                 s2 = st.copy()
-                val2 = Struct("tuple", [Int.top(bits, signed), Int.const(1, 1, False)])
-                out.append((s2, val2, None, None, None, ()))
+                try:
+                    if lin is not None:
+                        if lo >= tlo:          # only upward overflow possible
+                            s2.add_le(LinForm.constant(thi + 1) - lin)
+                        elif hi <= thi:        # only downward
+                            s2.add_le(lin - (tlo - 1))
+                    val2 = Struct("tuple", [Int.top(bits, signed), Int.const(1, 1, False)])
+                    out.append((s2, val2, None, None, None, ()))
+                except Infeasible:
+                    pass
                 return out
             v, lin, d = self.binop(st, op, a, la, b, lb, dty)
             if d is None and op == "BitAnd":
@@ -460,7 +471,13 @@ class Engine(Interp):
             rv = s.cells.get(nf.cell(0), UNIT)
             rloc = (nf.cell(0), ())
             self.write_place(s, frame, c.term["dest"], rv, self.lin_of(s, rv, rloc) if isinstance(rv, Int) else None, rloc)
-            self.kill_frame(s, nf)
+            try:
+                self.kill_frame(s, nf)
+                pa = self.opt.get("post_assume", {}).get(body.path)
+                if pa is not None:
+                    pa(self, s, self.resolve(s, frame, c.term["dest"]))
+            except Infeasible:
+                continue
             outs.append(s)
         c.results.extend(outs)
         return outs
@@ -591,6 +608,14 @@ class Engine(Interp):
             v = st.cells.get(frame.cell(l))
             if v is None:
                 continue
+            if isinstance(v, Iter):
+                # a loop driven by an iterator of unknown length is not unrolled
+                if v.ikind == "slice" and not (isinstance(v.remaining, Int) and v.remaining.is_const()):
+                    return ()
+                if v.ikind == "range" and not (isinstance(v.end, Int) and v.end.is_const() and isinstance(v.start, Int) and v.start.is_const()):
+                    return ()
+                if v.ikind == "opaque":
+                    return ()
             for p, leaf in int_leaves(v):
                 if leaf.is_const():
                     key.append((l, p, leaf.lo))
@@ -608,7 +633,20 @@ class Engine(Interp):
         exits = {}
         base_tag = st_in.tag
 
+        live = self._liveness.get(body.key)
+        if live is None:
+            live = mirlib.body_liveness(body)
+            self._liveness[body.key] = live
+        live_in, borrowed = live
+        nlocals = len(body.locals)
+
         def push(bb, s, from_bb=None):
+            # drop frame locals that are dead at bb (never address-taken ones: those wait for StorageDead)
+            if from_bb is not None:
+                li = live_in[bb]
+                dead = [k for k in s.cells if k[0] == "L" and k[1] == frame.uid and k[2] not in li and k[2] not in borrowed and k[2] > body.arg_count]
+                for k in dead:
+                    s.kill_cell(k)
             # maintain loop components of the tag
             tag = s.tag
             if from_bb is not None:
@@ -637,7 +675,7 @@ class Engine(Interp):
                 return
             visits[key] += 1
             w = visits[key] > WIDEN_AFTER and (bb in loops)
-            j = join_states(old, s, widen=w, thresholds=thresholds)
+            j = join_states(old, s, widen=w, thresholds=thresholds, templates=(bb in loops))
             j.tag = tag
             in_states[key] = j
             if key not in work:
